@@ -12,12 +12,13 @@ calls with both content types and streaming handlers; a different script per inv
 HTML_NAMES = ["div", "span", "p", "a", "b", "i", "em", "ul", "li", "section", "h1", "x-foo", "DIV", "Span", "P"]
 VOID_NAMES = ["br", "img", "hr", "input", "IMG", "wbr", "meta"]
 SVG_NAMES = ["g", "path", "circle", "rect"]
-ATTR_NAMES = ["id", "class", "href", "title", "data-x", "HREF", "x", "Class"]
+# `=b`, `a"b`, `a<b`: names the parser produces and `set_attribute` would refuse; lookups / remove_attribute must find them (F8, repaired)
+ATTR_NAMES = ["id", "class", "href", "title", "data-x", "HREF", "x", "Class", "=b", 'a"b', "a<b"]
 TEXT_PIECES = ["a", "b", "hello", " ", "\n", "&", "&amp;", ">", "\"", "'", "x y", "1", "é", "日本", "=", "/", "-->", "]]>", "-", "!"]
 COMMENT_PIECES = ["a", " ", "c o", "x=1", "é", "[", "?", "/", "1", "'"]
 CONTENT_POOL = ["<b>", "x", "&", "<!--c-->", "a<b", "é", "", "</p>", "\"q\"", "<i>y</i>", ">", "&lt;", " ", "</div>", "<br>", "日"]
 NEW_TAG_NAMES = ["x", "h2", "Y-z", "section", "b", "", "1a", "a b", "a/b", "q>", "é", "aé"]
-SET_ATTR_NAMES = ["id", "class", "href", "title", "data-x", "HREF", "x", "new", "NEW", "a=b", "", "a b", "é", "y/"]
+SET_ATTR_NAMES = ["id", "class", "href", "title", "data-x", "HREF", "x", "new", "NEW", "a=b", "", "a b", "é", "y/", "=b", "=B", 'a"b', "A<B"]
 ATTR_VALUES = ["", "v", "a b", "\"", "a\"b\"", "&", "<>", "é", "'", "x=1"]
 COMMENT_TEXTS = ["n", "", " x ", "a-b", "-->", "--!>", ">x", "->x", "a--b", "é", "-"]
 
@@ -53,8 +54,11 @@ class Doc:
         out = b""
         attrs = []
         last_unquoted = False
+        prev_valueless = False
         for _ in range(n):
             name = rng.choice(ATTR_NAMES)
+            if prev_valueless and name.startswith("="):
+                name = "x"                        # `title =b` would be title="b": `=b` is a name only after a value / the tag name
             sep = rng.choice([" ", " ", "  ", "\n", "\t"])
             form = rng.randrange(6)
             val = "".join(rng.choice(["a", "b", "1", " ", "é", "&", "x", "/", "=", ">", "<"]) for _ in range(rng.randrange(0, 5)))
@@ -77,6 +81,7 @@ class Doc:
             else:
                 raw, value = name + '=""', ""
                 last_unquoted = False
+            prev_valueless = form == 0
             out += sep.encode() + raw.encode()
             attrs.append((name.encode(), value.encode(), raw.encode()))
         return out, attrs, last_unquoted
